@@ -36,7 +36,25 @@ def run(ctx):
     out = os.path.join(ctx.work, "traces.ndjson")
     vf.drv(ctx, ["c03", spath, out], timeout=1800)
     traces = vf.read_ndjson(out)
+    # free-running callers that release their responses at once (the hand-over / hijack path under real concurrency)
+    out2 = os.path.join(ctx.work, "stress.ndjson")
+    vf.drv(ctx, ["c03stress", out2, str(40 if thorough else 8)], timeout=1800)
+    stress = vf.read_ndjson(out2)
+    ctx.cov["stress_bursts"] = len(stress)
+    ctx.cov["stress_calls"] = sum(s["calls"] for s in stress)
+    ctx.cov["stress_calls_failed"] = sum(s["failed"] for s in stress)
+    hist = traces
+    traces = traces + stress
     bad, gen, dist = vf.judge_records(ctx, "udp", "RecC03", "RecC03.cfg", traces, shards=4, timeout=1800)
+    bad_stress = {k: [i for i in v if i >= len(hist)] for k, v in bad.items()}
+    bad = {k: [i for i in v if i < len(hist)] for k, v in bad.items()}
+    bad = {k: v for k, v in bad.items() if v}
+    for clause, idxs in sorted(bad_stress.items()):
+        if idxs:
+            ss = [traces[i] for i in idxs]
+            vf.report(ctx, clause, {"mode": "stress"}, "%d burst(s) of concurrent callers returned a foreign response to a caller; e.g. %s (of %d calls %d wrong)" % (
+                len(ss), ss[0]["first"], ss[0]["calls"], ss[0]["wrong"]), {"record": ss[0], "cmd": "bin/check C03 --tier %s" % ctx.tier})
+    traces = hist
     ctx.add("states", dist)
     ctx.add("transitions", gen)
     ctx.add("traces_validated_against_impl", len(traces))
